@@ -239,7 +239,9 @@ where
     // Propagates carry on the rest of the limbs of res
     for j in 0..steps {
         ZNXARI::znx_zero(res.at_mut(res_col, j));
-        if j == 0 {
+    }
+    for j in 0..steps {
+        if j == steps - 1 {
             ZNXARI::znx_normalize_final_step_assign(base2k, lsh, res.at_mut(res_col, steps - j - 1), carry);
         } else {
             ZNXARI::znx_normalize_middle_step_assign(base2k, lsh, res.at_mut(res_col, steps - j - 1), carry);
